@@ -522,6 +522,30 @@ def replay(key: str, model: dict, obligation: dict) -> dict:
         kind, label = obligation["kind"], obligation["label"]
         if kind in ("safety", "callpre"):
             if raised is not None:
+                # the exception must be the one the obligation is about; anything else (typically an AttributeError on
+                # an object the model left partially described) is an artefact of the replay, not a reproduction
+                msg = str(raised)
+                tn = type(raised).__name__
+                expect = {"key": ("KeyError",), "index": ("IndexError",), "divzero": ("ZeroDivisionError",), "pop_empty": ("IndexError", "KeyError"),
+                          "remove_absent": ("ValueError",), "set_remove_absent": ("KeyError",), "index_absent": ("ValueError",),
+                          "min_max_empty": ("ValueError",), "unpack_arity": ("ValueError", "TypeError"), "enum_value": ("ValueError",),
+                          "randint_range": ("ValueError",), "choice_nonempty": ("IndexError", "ValueError"), "ip_range": ("AddressValueError", "ValueError")}
+                head = label.split(".")[0].split("@")[0]
+                ok = True
+                if head in ("none_deref", "none_subscript", "len_of_none", "iterate_none", "call_of_none", "attr_of_nonobject", "receiver_is_",
+                            "subscript_of_nonlist", "subscript_of_nondict", "arith_on_nonnumber"):
+                    ok = tn in ("AttributeError", "TypeError") and ("NoneType" in msg or head not in ("none_deref", "none_subscript", "len_of_none", "iterate_none", "call_of_none"))
+                elif head == "raise":
+                    ok = tn == label.split(".", 1)[1].split("@")[0]
+                elif head == "assert":
+                    ok = tn == "AssertionError"
+                elif head in expect:
+                    ok = tn in expect[head]
+                if not ok:
+                    out["reproduced"] = None
+                    out["detail"] = (f"real code raised {tn}, not the exception obligation `{label}` is about "
+                                     f"(possibly an artefact of the partially constructed state)")
+                    return out
                 out["reproduced"] = True
                 out["detail"] = f"real code raised {type(raised).__name__} on the model's input"
             else:
